@@ -172,7 +172,24 @@ S.append(Schema('leftrec_nullable', [Rule('R', Seq(F('l', 0, Ref('L')), Opt(fc()
               '                walk(&v.l, &mut o);', opt(2, 'v.c')),
     note='@leftrec L = l:*L b:B | ;  a seed that matches the empty string'))
 
+S.append(Schema('position_root_bom', [Rule('R', Seq(fa()), export=True, position=(0, 1))], 'R', 'A', n=4, alphabet='\ufeffx ', via_public=True,
+    props=('C09',),
+    extract=J(one(0, 'v.a'), '                o.x[0] = v.position.start as i32; o.x[1] = v.position.end as i32; o.end = v.position.end;'),
+    note='@export @position root through the public parse entry, inputs may start with U+FEFF: range is relative to the caller\'s input'))
+
+S.append(Schema('optional_unnamed_rule', [Rule('R', Seq(Opt(Ref('S')), fc()), skip=False, export=True), Rule('S', Seq(A, B), skip=False)], 'R', 'ABC', n=3,
+    props=('C10', 'C01'), extract=J(one(2, 'v.c')),
+    note='[S] c:C with S = A B: the failure inside the abandoned optional is the furthest one'))
+
 # ---------------------------------------------------------------------------------------------- include / whitespace
+def optinc_rules(inline):
+    return [Rule('R', Seq(Opt(Inc('I') if not inline else Grp(Ref('S2'))), fc()), skip=False, export=True),
+            Rule('I', Ref('S2'), skip=False), Rule('S2', Seq(A, B), skip=False)]
+S.append(Schema('opt_include', optinc_rules(False), 'R', 'ABC', n=3, props=('C13', 'C10'), extract=J(one(2, 'v.c')),
+    note='[>I] c:C with I = S2, S2 = A B: include inside an optional'))
+S.append(Schema('opt_inlined', optinc_rules(True), 'R', 'ABC', n=3, props=('C13', 'C10'), extract=J(one(2, 'v.c')), twin_of='opt_include',
+    note='[(S2)] c:C: the same grammar with the include replaced by the parenthesised body'))
+
 def inc_rules(inline, inc_skip=False, extra=()):
     incbody = Seq(fb(), Lit('y'))
     return [Rule('R', Seq(fa(), Opt(Inc('I') if not inline else Grp(incbody)), fc(), Eoi()), export=True),
